@@ -119,6 +119,82 @@ theorem C07_stale_lock (k : Lock.K) (h : Lock.Inv k) (p q : Nat) (hp : (k.procs 
   Lock.C13_stale_lock_free k h p q hp hq
 
 
+/-! ## the index stage in skel: whatever a killed run left at the names of an index -/
+
+/-- size and content identity of what a name shows -/
+def contentAt (fs : FS) (p : Path) : Option (Nat × Nat) := (fs.dataAt p).map fun d => (d.size, d.tag)
+
+theorem utimeOpt_dat_content (fs : FS) (p : Path) (d : Option Int) (i : Nat) :
+    ((utimeOpt fs p d).dat i).size = (fs.dat i).size ∧ ((utimeOpt fs p d).dat i).tag = (fs.dat i).tag := by
+  cases d with
+  | none => exact ⟨rfl, rfl⟩
+  | some t =>
+    simp only [utimeOpt, FS.utime]
+    cases fs.ino p with
+    | none => exact ⟨rfl, rfl⟩
+    | some j =>
+      simp only
+      by_cases h : i = j
+      · subst h; simp
+      · simp [h]
+
+/-- **C07 (index stage: the rerun's result does not depend on what a dead run left in skel).** Take *any* file-system state at
+    the names of an index variant - nothing, a torso, a complete file without its date, a complete and dated by-hash file whose
+    other names still show older content or are missing (every crash point of an earlier transfer of it, and anything else).
+    S5 is the only assumption: if the file under the requested name passes for unmodified (size and upstream date as the server
+    announces them), it has the content the server serves.  Then an accepting attempt - whether it transfers the body or takes
+    the file for unmodified - ends with **every** name of the variant showing exactly the served content. -/
+theorem C07_index_rerun_content (root : Path) (f : DFile) (v : Variant) (src : Path) (s s1 : DState) (err : Bool)
+    (announced : Option Nat) (date : Option Int) (body tag : Nat) (abort : Bool)
+    (hreq : s.request src = (.ok announced date body abort tag, s1))
+    (hS5 : sizeTruthy announced = true → needUpdate s1.fs (root ++ src) announced date = false →
+      contentAt s1.fs (root ++ src) = some (body, tag))
+    (s' : DState) (hacc : attempt root f v src s err = .accept s') :
+    ∀ a ∈ v.allPaths, contentAt s'.fs (root ++ a) = some (body, tag) := by
+  intro a ha
+  unfold attempt at hacc
+  rw [hreq] at hacc
+  simp only at hacc
+  split at hacc
+  · split at hacc <;> cases hacc
+  · split at hacc
+    · rename_i hun
+      obtain ⟨htru, hnu⟩ := hun
+      simp only [Bool.not_eq_eq_eq_not, Bool.not_true] at hnu
+      cases hacc
+      have h5 := hS5 htru hnu
+      show contentAt (linkOrCopy s1.fs (root ++ src) _) (root ++ a) = some (body, tag)
+      unfold contentAt FS.dataAt at h5 ⊢
+      rw [linkOrCopy_mem _ _ _ _ (mem_map_root ha), linkOrCopy_dat]
+      exact h5
+    · split at hacc
+      · cases hacc
+      · split at hacc
+        · cases hacc
+        · cases hacc
+          show contentAt (linkOrCopy (utimeOpt (s1.fs.rewrite (root ++ src) body tag) (root ++ src) date) (root ++ src) _) (root ++ a)
+            = some (body, tag)
+          unfold contentAt FS.dataAt
+          rw [linkOrCopy_mem _ _ _ _ (mem_map_root ha), linkOrCopy_dat, utimeOpt_ino, FS.rewrite_ino_self]
+          simp only [Option.map_some]
+          obtain ⟨h1, h2⟩ := utimeOpt_dat_content (s1.fs.rewrite (root ++ src) body tag) (root ++ src) date s1.fs.next
+          rw [h1, h2, FS.rewrite_dat_new]
+
+/-- a torso (or a complete file whose date was not yet set) satisfies the S5 premise vacuously: it is never taken for unmodified -/
+theorem C07_index_torso_refetched (fs : FS) (p : Path) (k t : Nat) (announced : Option Nat) (date : Option Int) :
+    needUpdate (fs.rewrite p k t) p announced date = true := by
+  have hd : (fs.rewrite p k t).dataAt p = some { size := k, mtime := none, tag := t } := by
+    unfold FS.dataAt
+    rw [FS.rewrite_ino_self]
+    simp only [Option.map_some]
+    rw [FS.rewrite_dat_new]
+  exact C07_partial_not_unmodified _ p _ hd rfl announced date
+
+/-- non-vacuity: a state in which the by-hash name is complete and dated while the canonical name shows other content meets the
+    premise (the file under the requested name has the served content) -/
+example : contentAt ((FS.empty.addFile [["by-hash"], ["h"]].flatten { size := 5, mtime := some 7, tag := 3 }).addFile ["Packages.xz"]
+    { size := 4, mtime := some 1, tag := 2 }) ["by-hash", "h"] = some (5, 3) := by decide
+
 /-! ## the whole run (L2): every crash point, then a good run -/
 namespace Mirror
 
